@@ -1044,13 +1044,13 @@ def attr_targets_as_names(body):
 
 
 def generate_model(repo):
-    """model.py `BaseType.__getitem__`, `BaseType._get_data_index`, one turn of the loop of `GridType.__getitem__`
-    (C14's `Proxy.varGetitem` / `readData` / `gridLoop`): the only thing done with the data an object holds is to READ
-    `data[index]`; the result is stored on the NEW object"""
+    """model.py `BaseType.__getitem__`, `BaseType._get_data_index` (C14's `Proxy.varGetitem` / `readData`): the only
+    thing done with the data an object holds is to READ `data[index]`; the result is stored on the NEW object.
+    (The loop of `GridType.__getitem__` is not tied by translation: mutants/C14/harmless_grid_loop.diff, a rewrite of
+    that loop that must stay quiet, leaves the fragment; the loop is covered by the traced correspondence.)"""
     model = parse_src(repo, "model.py")
     DAP4_ATTRS = ("if type(self.data).__name__ == 'BaseProxyDap4':\n    out.attributes['checksum'] = self.data.checksum\n"
                   "    out.attributes['Maps'] = self.Maps")
-    DAP4_PASS = "if type(self.data).__name__ == 'BaseProxyDap4':\n    pass"
 
     def getitem():
         fn = find_method(model, "BaseType", "__getitem__")
@@ -1064,22 +1064,6 @@ def generate_model(repo):
                           "np.vectorize(decode_np_strings)(self._data[index])": "@decoded", "self._data[index]": "@plain"}):
             return stmts(body_of(fn), None, tail=True)
 
-    def grid_turn():
-        fn = find_method(model, "GridType", "__getitem__")
-        loops_ = [n for n in ast.walk(fn) if isinstance(n, ast.For)
-                  and ast.unparse(n.iter) == "zip(out.children(), [key] + axes)"]
-        if len(loops_) != 1 or ast.unparse(loops_[0].target) not in ("(var, slice_)", "var, slice_"):
-            raise Untranslatable("expected exactly one loop `for var, slice_ in zip(out.children(), [key] + axes)`")
-        holders = [n for n in ast.walk(fn) if isinstance(getattr(n, "body", None), list) and loops_[0] in n.body] + \
-                  [n for n in ast.walk(fn) if isinstance(getattr(n, "orelse", None), list) and loops_[0] in n.orelse]
-        lst = holders[0].body if loops_[0] in getattr(holders[0], "body", []) else holders[0].orelse
-        i = lst.index(loops_[0])
-        if i == 0 or ast.unparse(lst[i - 1]) != "out = copy.copy(self)":
-            raise Untranslatable("expected `out = copy.copy(self)` right before the loop")
-        body = attr_targets_as_names(drop_statements(loops_[0].body, [DAP4_PASS]))
-        with abstracting({"self[var.name].data[slice_]": "@member_indexed"}):
-            return stmts(body, None, tail=False)
-
     parts = [HEADER,
              block("src_basetype_getitem", "model.py BaseType.__getitem__: the whole body but the statement that copies the "
                    "DAP4 attributes `checksum` / `Maps` (set aside, named in the generator); inputs: `@copy` for "
@@ -1088,10 +1072,6 @@ def generate_model(repo):
              block("src_get_data_index", "model.py BaseType._get_data_index: the whole body; inputs: `@is_string` for "
                    "`self._is_string_dtype`, `@is_ndarray` for `isinstance(self._data, np.ndarray)`, `@plain` for "
                    "`self._data[index]`, `@decoded` for `np.vectorize(decode_np_strings)(self._data[index])`", get_data_index),
-             block("src_grid_loop_turn", "model.py GridType.__getitem__: one turn of `for var, slice_ in zip(out.children(), "
-                   "[key] + axes)` (the loop must follow `out = copy.copy(self)`), without the empty DAP4 `if … pass` (set "
-                   "aside); input: `@member_indexed` for `self[var.name].data[slice_]`; `var.data = e` is the assignment of "
-                   "the variable `var.data`", grid_turn),
              "end Pydap.Gen\n"]
     return "\n".join(parts)
 
